@@ -229,7 +229,8 @@ class Check:
                 raise ToolError(f"vacuity: action {a} never taken in {module}")
         return run
 
-    def tlc_gen(self, module, cfg, out_name, tag=None, timeout=3600, simulate=None, heap="8g", count_stats=True):
+    def tlc_gen(self, module, cfg, out_name, tag=None, timeout=3600, simulate=None, heap="8g", count_stats=True,
+                dedupe=False):
         """Run a Gen_ module (-workers 1), collect the JSON lines it prints into work/<out_name>."""
         tag = tag or ("gen_" + module)
         extra = []
@@ -238,9 +239,14 @@ class Check:
         rc, out_path, dt = self._tlc(module, cfg, tag, workers=1, extra=extra, timeout=timeout, heap=heap)
         out = os.path.join(self.work, out_name)
         n = 0
+        seen = set()
         with open(out_path) as fi, open(out, "w") as fo:
             for line in fi:
                 if line.startswith('"{'):
+                    if dedupe:
+                        if line in seen:
+                            continue
+                        seen.add(line)
                     fo.write(line)
                     n += 1
         text = open(out_path).read()
